@@ -22,6 +22,11 @@ UNIT_CATS = ('convert-from-unit', 'sum-mix', 'add-units', 'to-storage', 'from-st
 
 def run(ctx):
     model = ctx.model
+    # capacity is enforced inside the add both operations go through (C03.R1 on _self_add)
+    from .c03 import capacity_gates
+    capacity_gates(ctx, 'C11.R1', only=('_self_add',))
+    from . import unitspec as _us
+    _us.api_verified(ctx, 'C11.R5')
     for name in ('dilute', 'fill_to'):
         fi = model.func(f"Container.{name}")
         ff = ctx.flow(fi.qualname)
